@@ -1314,7 +1314,8 @@ void Listener::WaitTillAnyTimeout(Event& ev)
 
     timeout_time = ev.GetFloat(1);
 
-    for (size_t i = 1; i <= ev.NumArgs(); i++)
+    // the first argument is the timeout, the event names follow it
+    for (size_t i = 2; i <= ev.NumArgs(); i++)
     {
         name = ev.GetConstString(i);
 
